@@ -227,6 +227,9 @@ SPECS: Dict[str, Dict[str, List[tuple]]] = {
     "pyttb.hosvd.hosvd": {
         "eigsumthresh": [("tol**2 * normxsqr / d", True)],
         "relnorm": [("np.sqrt(diffnormsqr / normxsqr)", True)],
+        # ||X||^2 and ||X - T||^2 as sums of squares (the threshold and the reported error are relative to the SQUARED norm)
+        "normxsqr": [("(input_tensor**2).collapse()", False), ("input_tensor.norm()**2", False)],
+        "diffnormsqr": [("((input_tensor - result.full())**2).collapse()", False), ("(input_tensor - result.full()).norm()**2", False)],
         # the rank choice: eigenvalues in decreasing order, their tail sums, the last index whose tail sum still exceeds
         # the threshold (+1), only for modes whose rank was not requested
         "eigvec": [("D[pi]", True)],
